@@ -22,12 +22,51 @@ func rulesC03(c *Ctx) {
 	c.Rule("R-C03-1", "the handler queue is FIFO: appended at the tail only when a request is accepted, consumed from the head only by the dispatcher", func() {
 		nApp, nPop := 0, 0
 		for _, f := range c.funcsWithLits(pJ) {
+			// headTaken: some assignment of this function reads handlerQueue[0]
+			headTaken := func() *ast.AssignStmt {
+				for _, w := range Writes(f.Body, false) {
+					if w.RHS == nil {
+						continue
+					}
+					if m, k, ok := indexOf(w.RHS); ok && f.IsField(m, queue) {
+						if z, ok := f.ConstInt(k); ok && z == 0 {
+							as, _ := w.Stmt.(*ast.AssignStmt)
+							return as
+						}
+					}
+				}
+				return nil
+			}
 			for _, w := range Writes(f.Body, false) {
+				if m, k, isIx := indexOf(w.LHS); isIx && f.IsField(m, queue) {
+					// an element is overwritten: only the head slot, with nil, after its value was taken (so that the backing
+					// array does not keep the request alive); anything else reorders or replaces queued requests
+					z, isZ := f.ConstInt(k)
+					ht := headTaken()
+					g := f.Graph()
+					c.Check(isZ && z == 0 && w.RHS != nil && isNilIdent(w.RHS) && ht != nil && g.Dominates(g.VertexOf(ht), g.VertexOf(w.Stmt)), f.Name()+":handlerQueue[i]=", f, w.Stmt, "an element of the queue is overwritten only to clear the head slot after its request was taken")
+					continue
+				}
 				if !f.IsField(w.LHS, queue) {
 					continue
 				}
 				root := f.Root()
 				key := f.Name() + ":handlerQueue="
+				if empty, _ := f.emptySlice(w.RHS); w.RHS != nil && empty {
+					// the drained queue is reset: only where it is known to be empty
+					g := f.Graph()
+					okE := hasAtom(g.GuardsAt(g.VertexOf(w.Stmt)), func(a Atom) bool {
+						x, y, op, ok := binaryCmp(a.E)
+						if !ok {
+							return false
+						}
+						ce, isCe := ast.Unparen(x).(*ast.CallExpr)
+						z, isZ := f.ConstInt(y)
+						return isCe && f.BuiltinName(ce) == "len" && len(ce.Args) == 1 && f.IsField(ce.Args[0], queue) && isZ && z == 0 && ((op == token.EQL && a.Val) || (op == token.GTR && !a.Val) || (op == token.NEQ && !a.Val))
+					})
+					c.Check(okE, key+"reset", f, w.Stmt, "the queue is replaced by an empty one only where len(handlerQueue) == 0 is known (nothing queued is dropped)")
+					continue
+				}
 				if w.RHS == nil {
 					// tuple assignment: req, s.handlerQueue = s.handlerQueue[0], s.handlerQueue[1:]
 					c.Fail(key+"?", f, w.Stmt, "unrecognised write of handlerQueue")
@@ -45,16 +84,11 @@ func rulesC03(c *Ctx) {
 					}
 					okPop := f.IsField(r.X, queue) && isInt && lo == 1 && r.High == nil
 					// the element taken in the same statement is index 0
-					as, _ := w.Stmt.(*ast.AssignStmt)
+					// (in the same statement, or in an assignment that every path to the pop has passed)
 					head := false
-					if as != nil {
-						for _, rhs := range as.Rhs {
-							if m, k, ok := indexOf(rhs); ok && f.IsField(m, queue) {
-								if z, ok := f.ConstInt(k); ok && z == 0 {
-									head = true
-								}
-							}
-						}
+					if ht := headTaken(); ht != nil {
+						g := f.Graph()
+						head = ht == w.Stmt || g.Dominates(g.VertexOf(ht), g.VertexOf(w.Stmt))
 					}
 					nPop++
 					c.Check(okPop && head && root.Obj == haObj, key+"pop-head", f, w.Stmt, "dequeue takes handlerQueue[0] and keeps handlerQueue[1:], in handleAsync")
@@ -476,6 +510,11 @@ func rulesC03(c *Ctx) {
 		c.Need(msgsRes != nil, "readBatch: named result msgs")
 		n := 0
 		for _, w := range rb.writesToVar(rb.Body, msgsRes, true) {
+			if as, isAs := w.(*ast.AssignStmt); isAs && len(as.Lhs) == 1 && len(as.Rhs) == 1 {
+				if empty, _ := rb.emptySlice(as.Rhs[0]); empty && !rb.insideLoop(as) {
+					continue // msgs = make([]Message, 0, n): an empty slice to append to
+				}
+			}
 			n++
 			ok := false
 			if as, isAs := w.(*ast.AssignStmt); isAs && len(as.Rhs) == 1 {
